@@ -715,6 +715,114 @@ pub fn run_c10(job: &Value) {
     set_ctx(json!({"phase": "c10", "part": part, "profile": profile}));
     let mut obs = Obs::new();
     let mut nviol = 0u64;
+    // deterministic tiny trees: empty, all-zero (several lengths and ways of getting there) must return
+    // InsufficientNonZero from try_sample and report !is_valid(); one-element positive trees must return 0
+    macro_rules! tiny {
+        ($W:ty) => {{
+            let z: $W = Default::default();
+            let one: $W = 1 as $W;
+            let mut trees: Vec<(String, WeightedTreeIndex<$W>, bool)> = vec![];
+            for n in 0..5usize {
+                if let Ok(t) = WeightedTreeIndex::<$W>::new(vec![z; n]) {
+                    trees.push((format!("new([0; {n}])"), t, false));
+                }
+            }
+            if let Ok(mut t) = WeightedTreeIndex::<$W>::new(Vec::<$W>::new()) {
+                let _ = t.push(z);
+                trees.push(("empty then push(0)".into(), t, false));
+            }
+            if let Ok(mut t) = WeightedTreeIndex::<$W>::new(vec![one]) {
+                let _ = t.update(0, z);
+                trees.push(("new([1]) then update(0, 0)".into(), t, false));
+            }
+            if let Ok(mut t) = WeightedTreeIndex::<$W>::new(vec![z, one, one]) {
+                t.pop();
+                t.pop();
+                trees.push(("new([0,1,1]) popped twice".into(), t, false));
+            }
+            if let Ok(mut t) = WeightedTreeIndex::<$W>::new(vec![one, one, one, one]) {
+                for i in 0..4 {
+                    let _ = t.update(i, z);
+                }
+                trees.push(("new([1;4]) all updated to 0".into(), t, false));
+            }
+            if let Ok(t) = WeightedTreeIndex::<$W>::new(vec![one]) {
+                trees.push(("new([1])".into(), t, true));
+            }
+            for (desc, t, valid) in trees {
+                let mut ok = t.is_valid() == valid;
+                for w in [0u64, u64::MAX, 0x8000_0000_0000_0000, 0x1234_5678_9abc_def0] {
+                    let mut r = Mon::new(Scripted::new(seed, 0, w)).budget(1000);
+                    let res = guarded(|| t.try_sample(&mut r));
+                    ok &= if valid { matches!(res, Caught::Ok(Ok(0))) } else { matches!(res, Caught::Ok(Err(WErr::InsufficientNonZero))) };
+                }
+                emit(&json!({"ev": "c10_invalid", "wt": stringify!($W), "tree": desc, "ok": ok, "profile": profile}));
+                if !ok {
+                    emit(&json!({"ev": "viol", "wt": stringify!($W), "kind": "invalid_tree_sample", "tree": desc, "msg": "is_valid()/try_sample() on an empty, all-zero or one-element tree did not behave as documented", "profile": profile}));
+                }
+            }
+        }};
+    }
+    if shard == 0 {
+        match part {
+            "u8" => tiny!(u8),
+            "i8" => tiny!(i8),
+            "u16" => tiny!(u16),
+            "i16" => tiny!(i16),
+            "u32" => tiny!(u32),
+            "i32" => tiny!(i32),
+            "u64" => tiny!(u64),
+            "i64" => tiny!(i64),
+            "usize" => tiny!(usize),
+            "u128" => tiny!(u128),
+            "i128" => tiny!(i128),
+            "f32" => tiny!(f32),
+            "f64" => tiny!(f64),
+            _ => {}
+        }
+    }
+    // float trees driven back to all-zero weights: whenever is_valid() is true, try_sample must not panic
+    macro_rules! zeroing {
+        ($W:ty) => {{
+            let mut g = Xo::new(mix(&[seed, shard, 0x2E80]));
+            for k in 0..200u64 {
+                let n = 1 + g.below(6) as usize;
+                let ws: Vec<$W> = (0..n).map(|_| ((g.unit() * 0.999 + 0.001) * [1.0, 0.1, 0.3, 1e-3, 7.0][g.below(5) as usize]) as $W).collect();
+                let Ok(mut t) = WeightedTreeIndex::<$W>::new(ws.clone()) else { continue };
+                let mut order: Vec<usize> = (0..n).collect();
+                for i in (1..n).rev() {
+                    order.swap(i, g.below(i as u64 + 1) as usize);
+                }
+                for &i in &order {
+                    let _ = t.update(i, 0.0);
+                }
+                let valid = t.is_valid();
+                let mut bad: Option<String> = None;
+                for w in [0u64, u64::MAX, 0x8000_0000_0000_0000, g.next()] {
+                    let mut r = Mon::new(Scripted::new(seed ^ k, 0, w)).budget(1000);
+                    match guarded(|| t.try_sample(&mut r)) {
+                        Caught::Ok(Ok(_)) if valid => {}
+                        Caught::Ok(Err(WErr::InsufficientNonZero)) if !valid => {}
+                        Caught::Panic(m) if !m.starts_with("assertion failed: target_weight") => bad = Some(format!("panic: {m}")),
+                        Caught::Panic(_) => {}
+                        other => bad = Some(format!("is_valid() = {valid} but try_sample returned {}", match other { Caught::Ok(r) => format!("{r:?}"), _ => "?".into() })),
+                    }
+                }
+                if let Some(m) = bad {
+                    nviol += 1;
+                    if nviol <= 3 {
+                        emit(&json!({"ev": "viol", "wt": stringify!($W), "kind": "zeroed_tree_sample", "tree": format!("new({ws:?}) then every weight updated to 0 in order {order:?}"), "msg": m, "profile": profile}));
+                    }
+                }
+            }
+            emit(&json!({"ev": "c10_zeroing", "wt": stringify!($W), "trees": 200}));
+        }};
+    }
+    match part {
+        "f32" => zeroing!(f32),
+        "f64" => zeroing!(f64),
+        _ => {}
+    }
     match part {
         "f32" | "f64" => {
             for t in 0..trees {
